@@ -43,6 +43,31 @@ func loadOfField(v ssa.Value, name string) (ssa.Value, bool) {
 	return fa.X, true
 }
 
+// listLenOf: v is the length of the slice field `name` of some struct pointer:
+// len(p.name) written out, or a call of an accessor method whose whole body is
+// `return len(recv.name)`. Returns the struct pointer.
+func listLenOf(v ssa.Value, name string) (ssa.Value, bool) {
+	c, ok := v.(*ssa.Call)
+	if !ok {
+		return nil, false
+	}
+	if b, ok := c.Call.Value.(*ssa.Builtin); ok && b.Name() == "len" && len(c.Call.Args) == 1 {
+		return loadOfField(c.Call.Args[0], name)
+	}
+	h := c.Call.StaticCallee()
+	if h == nil || !inModule(h) || len(h.Blocks) != 1 || len(h.Params) != 1 || len(c.Call.Args) != 1 {
+		return nil, false
+	}
+	r, ok := h.Blocks[0].Instrs[len(h.Blocks[0].Instrs)-1].(*ssa.Return)
+	if !ok || len(r.Results) != 1 {
+		return nil, false
+	}
+	if base, ok := listLenOf(r.Results[0], name); ok && base == ssa.Value(h.Params[0]) {
+		return c.Call.Args[0], true
+	}
+	return nil, false
+}
+
 var ruleEntry = &Rule{
 	Name: "R-ENTRY", NeedSSA: true,
 	Doc: "Query, First and Match obtain their list from one and the same internal call with the same arguments and differ only in post-processing (First: element 0 or nil; Match: sole boolean / NULL / single-boolean error gated by verbose); Exists runs the same evaluation with a nil collector; both adapters evaluate the root of the path against the given value; ExistsOrMatch dispatches on IsPredicate; a nil collector is only ever passed where strict mode re-collects or strictness is known false",
@@ -478,16 +503,12 @@ func (p *Prog) entrySuccessTag(name string, fn *ssa.Function, r RetSite, res0 ss
 			if !ok || bo.Op != token.EQL {
 				continue
 			}
-			if c, ok := bo.X.(*ssa.Call); ok {
-				if b, ok := c.Call.Value.(*ssa.Builtin); ok && b.Name() == "len" {
-					if base, ok := loadOfField(c.Call.Args[0], "list"); ok && base == res0 {
-						if k, ok := constInt(bo.Y); ok && k == 1 {
-							if f.Truth {
-								one = 1
-							} else {
-								one = -1
-							}
-						}
+			if base, ok := listLenOf(bo.X, "list"); ok && base == res0 {
+				if k, ok := constInt(bo.Y); ok && k == 1 {
+					if f.Truth {
+						one = 1
+					} else {
+						one = -1
 					}
 				}
 			}
@@ -649,12 +670,15 @@ func emptinessPolarity(fn *ssa.Function) int {
 	if !ok {
 		return 0
 	}
-	c, ok := bo.X.(*ssa.Call)
-	if !ok {
+	if _, ok := bo.X.(*ssa.Call); !ok {
 		return 0
 	}
-	if b, ok := c.Call.Value.(*ssa.Builtin); !ok || b.Name() != "len" {
-		return 0
+	if _, isLen := listLenOf(bo.X, "list"); !isLen {
+		if c := bo.X.(*ssa.Call); c.Call.Value == nil {
+			return 0
+		} else if b, ok := c.Call.Value.(*ssa.Builtin); !ok || b.Name() != "len" {
+			return 0
+		}
 	}
 	k, ok := constInt(bo.Y)
 	if !ok || k != 0 {
